@@ -17,8 +17,7 @@ pub const ENTRY: &[&str] = &["flat", "ring32k", "flat-ignore-adler", "inflate", 
 /// A complete small stream of the *other* framing, decoded by the object before it is
 /// re-initialised and used for the stream under test ("which entry point" includes a recycled decoder).
 fn other_format_stream(zlib: bool) -> Vec<u8> {
-    let d = b"previous stream, previous stream, previous stream";
-    if zlib { miniz_oxide::deflate::compress_to_vec(d, 6) } else { miniz_oxide::deflate::compress_to_vec_zlib(d, 6) }
+    reuse_history_bytes(0, zlib).0
 }
 
 fn trailer(kind: u8, len: usize, stream: &[u8]) -> Vec<u8> {
